@@ -70,6 +70,12 @@ impl World {
         let result = match op {
             Op::Join(txn) => {
                 self.env.borrow_mut().begin_op(idx, Some(txn), None, "join(OTAA)".into());
+                if txn.alt_identity {
+                    let mut e = self.env.borrow_mut();
+                    e.id.toggle_alt();
+                    e.push(crate::world::Ev::Note("the application provisions the other set of OTAA credentials".into()));
+                    e.bump("probe.join-with-other-credentials");
+                }
                 self.dut.join()
             }
             Op::Send { port, len, confirmed, txn } => {
